@@ -10,16 +10,21 @@ for d in os.listdir(sd):
     m = re.match(r'^(c\d\d)-(\d+)$', d)
     if m:
         byp.setdefault(m.group(1), []).append(int(m.group(2)))
-waves = {'f': [], 'g': [], 'earlier': []}
+waves = {'f': [], 'g': [], 'h': [], 'earlier': []}
+WAVE_H = {'c01', 'c02', 'c03', 'c04', 'c05', 'c06', 'c07', 'c09', 'c16'}       # c18's wave-h demonstrations needed a different build line and were not stored
 for p, ns in byp.items():
     ns = sorted(ns)
+    if p in WAVE_H:
+        for n in ns[-3:]:
+            waves['h'].append('%s-%d' % (p, n))
+        ns = ns[:-3]
     for n in ns[-3:]:
         waves['g'].append('%s-%d' % (p, n))
     for n in ns[-6:-3]:
         waves['f'].append('%s-%d' % (p, n))
     for n in ns[:-6]:
         waves['earlier'].append('%s-%d' % (p, n))
-for w in ('earlier', 'f', 'g'):
+for w in ('earlier', 'f', 'g', 'h'):
     own = some = none = 0
     unrep = []
     for sid in sorted(waves[w]):
